@@ -107,7 +107,7 @@ InvEv ==
 -----------------------------------------------------------------------------------------
 (* system-call steps: the recorded call must be the call the specification is about to issue *)
 IsCall(c, kind, id) == Mutating(E) /\ ~Injected(E) /\ E.call = c /\ E.kind = kind /\ E.id = id
-IsFailed(c, kind, id) == Injected(E) /\ E.call = c /\ E.kind = kind /\ E.id = id
+IsFailed(c, kind, id) == Injected(E) /\ E.res < 0 /\ E.call = c /\ E.kind = kind /\ E.id = id
 
 SysOpenCreate ==      \* Bitcask::open: rebuild (read only), then create max + 1
     /\ wr.pc = "opening"
@@ -143,6 +143,10 @@ SysMergeCopyMore ==
 \* -- the failed call and the calls of the error paths (BitcaskFault.tla) --
 FaultSys ==
     \/ (wr.pc = "append" /\ IsFailed("write", "data", active) /\ FailAppend)
+    \* a SHORT write of an append (half of the bytes reach the file), then the failing retry of the rest
+    \/ (wr.pc = "append" /\ Injected(E) /\ E.call = "write" /\ E.kind = "data" /\ E.id = active /\ E.res >= 0
+           /\ E.n = wr.calls[wr.ci] /\ E.res = wr.calls[wr.ci] \div 2 /\ FailAppendShort)
+    \/ (wr.pc = "f.newactive" /\ Injected(E) /\ E.call = "write" /\ E.kind = "data" /\ E.id = wr.old /\ E.res < 0 /\ UNCHANGED fvars)
     \/ (wr.pc = "sync" /\ IsFailed("fsync", "data", active) /\ FailSync)
     \/ (wr.pc = "roll" /\ IsFailed("create", "data", active + 1) /\ FailRoll)
     \/ (wr.pc = "f.newactive" /\ IsCall("create", "data", active + 1) /\ FNewActive)
